@@ -42,12 +42,28 @@ func randCase(rt *rapid.T, s, label string) string {
 type c26Header struct{ Name, Value string }
 
 func TestC26(t *testing.T) {
-	rec := ev.New("C26", "HTTP/1.1 requests sent over a real socket to an in-process BFE proxying to a harness backend; header sets contain generated subsets of the listed hop-by-hop fields in random case (multi-line, empty first value, TE variants) and a Connection header nominating 0..3 other present fields; oracle inspects the bytes the backend received. non-trivial: at least one hop-by-hop or Connection-nominated field present; distinct by header list")
-	w := startWorld(t, 1, sys.Options{}, nil)
+	rec := ev.New("C26", "HTTP/1.1 requests sent over a real socket to an in-process BFE proxying to a harness backend (the cluster also has a refused member, so about half of the requests arrive on a retry; mod_auth_request checks a quarter of them against an auth service first); header sets contain generated subsets of the listed hop-by-hop fields in random case (multi-line, empty first value, TE variants) and a Connection header nominating 0..3 other present fields; oracle inspects the bytes the backend received. non-trivial: at least one hop-by-hop or Connection-nominated field present; distinct by header list")
+	// cluster: one live backend and a refused port, so that about half of the requests reach the
+	// backend on a retry; mod_auth_request checks requests below /c26/auth/ against an auth
+	// service (second harness backend, always 200) before they are proxied
+	files := map[string]string{}
+	w := startWorld(t, 2, sys.Options{Modules: []string{"mod_auth_request"}, Files: files}, func(ports []int) *sys.DataConf {
+		files["mod_auth_request/mod_auth_request.conf"] = fmt.Sprintf("[Basic]\nDataPath = mod_auth_request/auth_request_rule.data\nAuthAddress = http://127.0.0.1:%d\nAuthTimeout = 3000\n\n[Log]\nOpenDebug = false\n", ports[1])
+		files["mod_auth_request/auth_request_rule.data"] = `{"Version": "v1", "Config": {"p": [{"Cond": "req_path_prefix_in(\"/c26/auth/\", false)", "Enable": true}]}}`
+		cl := sys.Cluster{Name: "c", RetryMax: 2, TimeoutConnSrvMs: 1000}
+		cl.Sub = []sys.SubCluster{{Name: "c.sub", Weight: 100, Backends: []sys.BackendSpec{
+			{Name: "b0", Addr: "127.0.0.1", Port: ports[0], Weight: 10},
+			{Name: "dead", Addr: "127.0.0.1", Port: 1, Weight: 10}}}}
+		return sys.SimpleConf("v0", []sys.Cluster{cl}, nil)
+	})
 	n := 0
 	rapid.Check(t, func(rt *rapid.T) {
 		n++
 		target := fmt.Sprintf("/c26/%d", n)
+		authChecked := rapid.IntRange(0, 3).Draw(rt, "auth-checked") == 0
+		if authChecked {
+			target = fmt.Sprintf("/c26/auth/%d", n)
+		}
 		var hs []c26Header
 		classes := []string{}
 		// end-to-end markers
@@ -141,7 +157,10 @@ func TestC26(t *testing.T) {
 			fpl = append(fpl, strings.ToLower(h.Name)+"="+h.Value)
 		}
 		sort.Strings(fpl)
-		rec.Case(method+"|"+strings.Join(fpl, "|"), nontrivial, classes...)
+		if authChecked {
+			classes = append(classes, "auth-request-checked")
+		}
+		rec.Case(method+"|"+strings.Join(fpl, "|")+fmt.Sprint(authChecked), nontrivial, classes...)
 		rec.Sample(map[string]any{"request": raw})
 
 		front := rapid.SampledFrom([]string{"h1", "h1", "h2", "spdy"}).Draw(rt, "frontend")
